@@ -34,7 +34,7 @@ META = {
     "assumptions": ["bit-identity of floats is outside: equality of result *terms* over the reals is shown",
                     "earlier calls run on their own symbol families (suffix @c<i>); a leak shows up as a foreign symbol "
                     "or as an unequal term", "user_pf_options['hyd_flag'] is the documented exception of 'unchanged'"],
-    "bound": {"quick": "purity on 8 structures x modes; 9 histories of length 2-3 on 3 structures, with and without havoc",
+    "bound": {"quick": "purity on 8 structures x modes; 11 histories of length 2-3 on 3 structures, with and without havoc",
               "thorough": "all ordered pairs (10 earlier call kinds x 3 last call kinds) + 16 triples + the 9 named histories, with and without havoc, on 5 structures"},
     "outside": ["histories longer than 3 calls", "float bit patterns"],
     "rule": "purity: one obligation per input cell (evaluated identity / term equality); history: system entries + result cells",
@@ -152,6 +152,11 @@ def histories(tier):
     H_.append(("colebrook_then_nikuradse", [dict(base, friction_model="swamee-jain")], dict(base)))
     H_.append(("bidirectional_then_hyd", [dict(mode="bidirectional")], dict(base)))
     H_.append(("alpha_then_default", [dict(base, alpha=0.5, tol_p=1e-2, ambient_temperature=300.0)], dict(base)))
+    # the matrix structure changes between two calls with the update option (an element switched off and on again)
+    H_.append(("update_topology_restored", [dict(base, only_update_hydraulic_matrix=True, _toggle=("pipe", -1))],
+               dict(base, only_update_hydraulic_matrix=True)))
+    H_.append(("update_reuse_topology_restored", [dict(base), dict(base, only_update_hydraulic_matrix=True, _toggle=("pipe", 0))],
+               dict(base, only_update_hydraulic_matrix=True)))
     if tier == "thorough":
         # every ordered pair (earlier call kind, last call kind) and a deterministic sample of triples
         kinds = {"hyd": dict(base), "seq": dict(mode="sequential"), "bid": dict(mode="bidirectional"),
@@ -217,10 +222,18 @@ def replay_history(rs):
         for kw in rs["pre"]:
             kw = dict(kw)
             fail = kw.pop("_fail", False)
+            toggle = kw.pop("_toggle", None)
+            if toggle is not None:
+                tcol = "opened" if toggle[0] == "valve" else "in_service"
+                tix = na[toggle[0]].index[toggle[1]]
+                told = na[toggle[0]].at[tix, tcol]
+                na[toggle[0]].at[tix, tcol] = False
             kk = dict(tight, **kw)
             if fail:
                 kk.update(max_iter_hyd=1, max_iter_therm=1, max_iter_bidirect=1, tol_p=1e-14, tol_m=1e-14)
             concrete_pipeflow(na, use_numba=numba, **kk)
+            if toggle is not None:
+                na[toggle[0]].at[tix, tcol] = told
         for tbl, col in saved.items():
             na[tbl]["mdot_kg_per_s"] = col
         last = dict(rs["last"])
